@@ -195,6 +195,10 @@ def record_run(sp, rs, k):
     cplx = bool(rs.rand() < 0.5)
     cond = float(10 ** rs.uniform(0, 3))
     A, b, x0 = random_system(rs, n, cplx, cond)
+    # conjugate gradients are scale-equivariant (A -> sa A, b -> sb b maps the iterates x_k -> (sb/sa) x_k): every clause is
+    # relative, so half of the runs are rescaled by many orders of magnitude (tiny right-hand sides, tiny / huge operators)
+    sa, sb = [(1.0, 1.0), (1.0, 1.0), (1.0, 1e-9), (1e-6, 1e-6), (1e6, 1.0), (1.0, 1e8), (1e-7, 1e-12), (1.0, 1.0)][k % 8]
+    A, b, x0 = A * sa, b * sb, x0 * (sb / sa)
     mode = int(rs.randint(0, 3))
     if mode == 0:
         P, Pm = None, np.eye(n)
@@ -242,7 +246,7 @@ def record_run(sp, rs, k):
     # conditioned systems; beyond that (measured: 5e-2 left at n = 12, cond(A) = 366 with a random HPD preconditioner) only the
     # monotone decrease of the A-norm error is required at step n
     exact_tol = 10000 if (n <= 6 and cond <= 100 and mode != 2) else 1000000000
-    return {"id": "cg%d" % k, "n": n, "max_iter": max_iter, "exact_tol": exact_tol, "ev": ev, "meta": {"complex": cplx, "cond": round(cond, 2), "precond": mode, "linop": use_linop}}
+    return {"id": "cg%d" % k, "n": n, "max_iter": max_iter, "exact_tol": exact_tol, "ev": ev, "meta": {"complex": cplx, "cond": round(cond, 2), "precond": mode, "linop": use_linop, "scale_A": sa, "scale_b": sb}}
 
 
 def run(ctx):
